@@ -54,7 +54,8 @@ def gen_case(cid, rnd, n_dbs, length, crash):
 
 def chain_case(cid, pattern, crash):
     """structured histories: a database that was snapshotted once, then per letter of `pattern`
-    n = first write of a new key, s = snapshot, k = kill + restart, c = clean shutdown + restart"""
+    n = first write of a new key, w = another write of a key that is already registered, s = snapshot,
+    k = kill + restart, c = clean shutdown + restart"""
     st = steps_prefix() + [{"c": "a", "line": "create-db da tok"}, {"c": "s_da", "line": "use-db da tok"},
                            {"c": "s_da", "line": "set k0 v0"}, {"c": "a", "line": "snapshot false da"}, {"tick": 1}]
     nk = 0
@@ -62,6 +63,8 @@ def chain_case(cid, pattern, crash):
         if ch == "n":
             nk += 1
             st.append({"c": "s_da", "line": "set n%d v%d" % (nk, nk)})
+        elif ch == "w":
+            st.append({"c": "s_da", "line": "set k0 w%d" % len(st)})
         elif ch == "s":
             st += [{"c": "a", "line": "snapshot false da"}, {"tick": 1}]
         else:
@@ -77,9 +80,9 @@ def cases_for(tier, seed):
     n = 0
     # every history of new-key / snapshot / kill / clean-restart steps up to a length
     for length in range(1, 5 if tier == "quick" else 7):
-        for pat in itertools.product("nskc", repeat=length):
+        for pat in itertools.product("nwskc", repeat=length):
             pat = "".join(pat)
-            if "n" not in pat or ("k" not in pat and "c" not in pat):
+            if ("n" not in pat and "w" not in pat) or ("k" not in pat and "c" not in pat):
                 continue
             # short histories also with a directory image after every file-system call (a kill there)
             cases.append(chain_case("c%s" % pat, pat, crash=(length <= (3 if tier == "quick" else 4))))
@@ -96,7 +99,7 @@ def run(tier, seed):
     devs, known = common.load_findings(PROP)
     # design level: the key-identifier / flag-file protocol with a kill between any two file-system steps
     cfg = "NunIds.cfg" if tier == "quick" else "NunIds_thorough.cfg"
-    rc, mout, secs = tlc.run_tlc("NunIds.tla", cfg, workers=4, timeout=1800, heap="6g")
+    rc, mout, secs = tlc.run_tlc("NunIds.tla", cfg, workers=1, timeout=1800, heap="6g")   # (one worker: breadth-first order, reproducible with the hidden history bound)
     if "No error has been found" not in mout:
         raise common.ToolError("NunIds (model of the repaired code) does not satisfy Decodes:\n" + mout[-3000:])
     gen, distinct = tlc.stats(mout)
@@ -131,7 +134,7 @@ def run(tier, seed):
                  "rewrites, key-map snapshots in two steps, kills between any two file-system steps and start-ups)"
                  % (cfg, distinct),
         "model_states": distinct, "model_transitions": gen,
-        "rule": "every history of {first write of a new key, snapshot, kill + restart, clean shutdown + restart} up to "
+        "rule": "every history of {first write of a new key, rewrite of a registered key, snapshot, kill + restart, clean shutdown + restart} up to "
                 "length 4 (6 thorough) on a snapshotted database; seeded histories of {create-db, first write of a new key, write of a shared key name, remove, "
                 "snapshot of a random subset + declutter tick, clean shutdown, restart} over 1-4 databases on a "
                 "node with its real replication loop (key ids, oplog, oplog-valid flag); the oplog is decoded "
